@@ -58,33 +58,38 @@ Definition qtab (p : pomdp Q) (j : nat) : list (list Q) :=
   | S j' => @tab2 Q (nS (base p)) (nA (base p)) (Qval (base p) (@Vk Q NumQ p j'))
   end.
 (* (PBVI value <= QMDP(Qt) value + slack + tol,  QMDP(Qt) value <= PBVI value + slack + tol) *)
-Definition le_tab (p : pomdp Q) tol (Qt : list (list Q)) (slackon : bool) j G (u : list Q) :=
+Definition le_tab (p : pomdp Q) tol (Qt : list (list Q)) (slackon : bool) (tub : option Q) j G (u : list Q) :=
   match @alpha_value Q NumQ p G (untab u), @qmdp_value Q NumQ p (untab2 Qt) (untab u) with
   | Some v, Some w =>
-    let sl := if slackon then tailF p j u else 0 in
+    (* tub = Some c: c >= gamma^j Rmax/(1-gamma) computed by the harness (rounded up), for runs of > 200
+       sweeps where the exact power is thousands of digits long *)
+    let sl := if slackon then match tub with Some c => c * @norm1 Q NumQ p (untab u) | None => tailF p j u end
+              else 0 in
     (Qle_bool v (w + sl + tol), Qle_bool w (v + sl + tol))
   | _, _ => (false, false)
   end.
 (* per test belief with implementation action values av and action distribution d *)
-Definition pb_one p tol ptol k j G Qs Qt slackon (e : list Q * (list Q * list Q)) :=
+Definition cross p tol tub j G Qs (u : list Q) :=
+  match tub with Some _ => fst (le_tab p tol Qs true tub j G u) | None => @chk_crossF Q NumQ p tol j G Qs u end.
+Definition pb_one p tol ptol k j G Qs Qt slackon tub (e : list Q * (list Q * list Q)) :=
   let u := fst e in
   (@nonnegb Q NumQ p (untab u),
-   @chk_pbvi_upperF Q NumQ p tol k j G u, fst (le_tab p tol Qt slackon j G u),
-   @chk_crossF Q NumQ p tol j G Qs u,
+   @chk_pbvi_upperF Q NumQ p tol k j G u, fst (le_tab p tol Qt slackon tub j G u),
+   cross p tol tub j G Qs u,
    qz (@alpha_valueF Q NumQ p G u), map qz (@alpha_avF Q NumQ p G u),
    @greedy_checkF Q NumQ p ptol (fst (snd e)) (snd (snd e)),
    qz (@WoptF Q NumQ p k u), qz (tailF p k u)).
 (* per point of the recorded belief set (model side only) *)
-Definition pb_pt p tol k j G Qs Qt slackon (u : list Q) :=
-  (@chk_pbvi_upperF Q NumQ p tol k j G u, fst (le_tab p tol Qt slackon j G u),
-   @chk_crossF Q NumQ p tol j G Qs u, snd (le_tab p tol Qt slackon j G u),
+Definition pb_pt p tol k j G Qs Qt slackon tub (u : list Q) :=
+  (@chk_pbvi_upperF Q NumQ p tol k j G u, fst (le_tab p tol Qt slackon tub j G u),
+   cross p tol tub j G Qs u, snd (le_tab p tol Qt slackon tub j G u),
    qz (@alpha_valueF Q NumQ p G u)).
 (* jq = Some j: use the exact j-step QMDP table; None: the optimal table Qs with slack tail j *)
-Definition pb_rep p tol ptol k j (exactj : bool) G Qs es pts :=
+Definition pb_rep p tol ptol k j (exactj : bool) (tub : option Q) G Qs es pts :=
   let Qt := if exactj then qtab p j else Qs in
   let slackon := negb exactj in
-  (@wfpomdpb Q NumQ p, @fullobsb Q NumQ p, map (pb_one p tol ptol k j G Qs Qt slackon) es,
-   map (pb_pt p tol k j G Qs Qt slackon) pts).
+  (@wfpomdpb Q NumQ p, @fullobsb Q NumQ p, map (pb_one p tol ptol k j G Qs Qt slackon tub) es,
+   map (pb_pt p tol k j G Qs Qt slackon tub) pts).
 Definition q_one p tol ptol k Qt (e : list Q * (list Q * list Q)) :=
   let u := fst e in
   (@chk_qmdp_lowerF Q NumQ p tol k Qt u, map qz (@qmdp_avF Q NumQ p Qt u),
@@ -202,14 +207,15 @@ def dup_action(rng, pc):
     """a copy of action 0 as a new action: exact tie of the action values at every belief, or (50%) a
     gap of 2^-30 in the reward of one state (must NOT be treated as a tie)"""
     new = pc["nA"]
-    gap_state = rng.randrange(pc["n"]) if rng.random() < .5 else None
+    mode = rng.choice(["tie", "gap", "relgap"])
+    gap_state = rng.randrange(pc["n"]) if mode != "tie" else None
     for s in range(pc["n"]):
         row = [list(e) for e in pc["trans"]["%d,0" % s]]
         pc["trans"]["%d,%d" % (s, new)] = row
         for ns, p in row:
             r = F(pc["reward"].get("%d,0,%d" % (s, ns), "0"))
             if s == gap_state:
-                r += TINY
+                r += TINY if mode == "gap" else (abs(r) if r != 0 else F(1)) * F(1, 2**20)   # relative gap 2^-20
             if r != 0:
                 pc["reward"]["%d,%d,%d" % (s, new, ns)] = str(r)
         pc["actions"][s] = pc["actions"][s] + [new]
@@ -217,7 +223,7 @@ def dup_action(rng, pc):
         pc["obs"]["%d,%d" % (new, ns)] = [list(e) for e in pc["obs"]["0,%d" % ns]]
     pc["nA"] = new + 1
     pc["obs_kinds"] = pc["obs_kinds"] + [pc["obs_kinds"][0]]
-    return "gap" if gap_state is not None else "tie"
+    return {"tie": "tie", "gap": "gap", "relgap": "relgap-2^-20"}[mode]
 
 
 def tiny_probabilities(rng, pc):
@@ -239,6 +245,95 @@ def tiny_probabilities(rng, pc):
     split(pc["obs"][rng.choice(sorted(pc["obs"]))], range(pc["nO"]))
 
 
+def gen_corridor(rng, gamma):
+    """corridor of n in {5,6,7} positions (not a power of two): left/right with slip 1/8, step cost, the far
+    end is an absorbing goal paying on entry; the reward is n-1 steps away from the start; the observation is
+    a noisy parity of the position"""
+    n = rng.choice([5, 6, 7])
+    trans, reward, obs = {}, {}, {}
+    cost = -rng.randint(1, 4)
+    prize = rng.randint(8, 40)
+    for s in range(n - 1):
+        for a, d in ((0, -1), (1, +1)):
+            t = min(max(s + d, 0), n - 1)
+            row = [[s, "1"]] if t == s else [[t, "7/8"], [s, "1/8"]]
+            trans["%d,%d" % (s, a)] = row
+            for ns, p in row:
+                reward["%d,%d,%d" % (s, a, ns)] = str(prize if ns == n - 1 else cost)
+    for a in (0, 1):
+        trans["%d,%d" % (n - 1, a)] = [[n - 1, "1"]]
+        for ns in range(n):
+            obs["%d,%d" % (a, ns)] = [[ns % 2, "7/8"], [1 - ns % 2, "1/8"]] if ns < n - 1 else [[0, "1"]]
+    starts = rng.sample(range(n - 2), 2)
+    return {"n": n, "nA": 2, "actions": [[0, 1] for _ in range(n)], "trans": trans, "reward": reward,
+            "absorbing": [False] * (n - 1) + [True], "init": [[starts[0], "5/8"], [starts[1], "3/8"]],
+            "gamma": gamma, "nO": 2, "obs": obs, "obs_kinds": ["corridor"] * 2}
+
+
+def tiny_branch_huge_reward(rng, pc):
+    """a branch of probability 2^-30 / 2^-40 carrying a reward ~1/p (its contribution to the state-action
+    reward is of order 1: dropping 'negligible' probabilities changes the answer); plus the same tiny mass
+    moved inside the initial distribution"""
+    k = rng.choice([30, 40])
+    masked = [pc["absorbing"][s] for s in range(pc["n"])]
+    cands = [(s, a) for s in range(pc["n"]) if not masked[s] for a in range(pc["nA"])]
+    if not cands or pc["n"] < 2:
+        return None
+    s, a = rng.choice(cands)
+    row = pc["trans"]["%d,%d" % (s, a)]
+    e = rng.choice([x for x in row if F(x[1]) >= F(1, 8)])
+    others = [x for x in range(pc["n"]) if x not in [y[0] for y in row]] or [x for x in range(pc["n"]) if x != e[0]]
+    other = rng.choice(others)
+    e[1] = str(F(e[1]) - F(1, 2**k))
+    for e2 in row:
+        if e2[0] == other:
+            e2[1] = str(F(e2[1]) + F(1, 2**k))
+            break
+    else:
+        row.append([other, str(F(1, 2**k))])
+    pc["reward"]["%d,%d,%d" % (s, a, other)] = str(rng.choice([-3, -2, 2, 3]) * 2**k)
+    pos = [x for x in pc["init"] if F(x[1]) >= F(1, 8)]
+    if pos:
+        e = rng.choice(pos)
+        o2 = rng.choice([x for x in range(pc["n"]) if x != e[0]])
+        e[1] = str(F(e[1]) - F(1, 2**k))
+        for e2 in pc["init"]:
+            if e2[0] == o2:
+                e2[1] = str(F(e2[1]) + F(1, 2**k))
+                break
+        else:
+            pc["init"].append([o2, str(F(1, 2**k))])
+    return "tiny-branch-huge-reward-2^-%d" % k
+
+
+NONDYADIC = {2: [["1/3", "2/3"], ["1/10", "9/10"], ["3/7", "4/7"]],
+             3: [["7/10", "1/5", "1/10"], ["1/3", "1/3", "1/3"], ["1/7", "2/7", "4/7"]]}
+
+
+def non_dyadic(rng, pc):
+    """thirds, sevenths and tenths in transition / observation / initial rows and rewards (float row sums
+    that are not exactly 1.0, numbers whose double differs from the rational)"""
+    def redo(row):
+        pos = [e for e in row if F(e[1]) > 0]
+        if len(pos) in NONDYADIC and rng.random() < .6:
+            for e, p in zip(pos, rng.choice(NONDYADIC[len(pos)])):
+                e[1] = p
+    for key in sorted(pc["trans"]):
+        redo(pc["trans"][key])
+    for key in sorted(pc["obs"]):
+        redo(pc["obs"][key])
+    redo(pc["init"])
+    for key in sorted(pc["reward"]):
+        if rng.random() < .5:
+            pc["reward"][key] = str(F(pc["reward"][key]) / rng.choice([10, 3, 7]))
+
+
+def long_horizon_case(rng):
+    """1200 sweeps (eps = 0 never stops early), gamma = 99/100"""
+    c = gen_case(rng, "quick", force="long-horizon-1200:tiger")
+    return c
+
+
 def degenerate_case():
     """one state, one action, one observation: expand_beliefs finds no new belief at all"""
     pc = {"n": 1, "nA": 1, "actions": [[0]], "trans": {"0,0": [[0, "1"]]}, "reward": {"0,0,0": "1"},
@@ -247,7 +342,7 @@ def degenerate_case():
     return {"pomdp": pc, "pbvi": {"min_exp": 1, "max_exp": 2, "eps": "1/100", "horizon": 10},   # one reward value: horizon=None divides by rmax-rmin = 0 (reported)
             "beliefs": [["1"]], "belief_kinds": ["initial"], "qmdp_solvers": ["vi", "pi"], "fullobs": True,
             "template": "degenerate", "labels": {"states": "int", "actions": "int", "obs": "int"},
-            "reuse": True, "touch_first": False, "initial_index": 0, "variants": ["degenerate"]}
+            "reuse": "warm-twisted-first", "touch_first": False, "initial_index": 0, "variants": ["degenerate"]}
 
 
 def gen_case(rng, tier, force=None):
@@ -261,6 +356,8 @@ def gen_case(rng, tier, force=None):
     if force:
         r, gb = (0.0, 1.0) if force.endswith("tiger") else (0.9, 1.0)
         gamma = "9/10" if force.endswith("tiger") else "19/20"
+        if force.startswith("long-horizon"):
+            gamma = "99/100"
         variants.append(force)
     if gb < .06:
         gamma, _ = "0", variants.append("gamma=0")
@@ -268,6 +365,9 @@ def gen_case(rng, tier, force=None):
         gamma, _ = NEAR1, variants.append("gamma=1-2^-20")
     if r < .35:
         pc = gen_tiger(rng, gamma)
+    elif r < .45 and not force:
+        pc = gen_corridor(rng, gamma)
+        variants.append("corridor-n=%d" % pc["n"])
     else:
         nmax = 3 if rng.random() < .6 else 4
         for _ in range(50):
@@ -275,7 +375,7 @@ def gen_case(rng, tier, force=None):
                                      nonpos=bool(force))
             if (pc["nO"] >= 2 or rng.random() < .1) and (pc["nA"] >= 2 or rng.random() < .15):
                 break
-    fullobs = r >= .35 and rng.random() < .25
+    fullobs = r >= .45 and rng.random() < .25
     if force:
         fullobs = not force.endswith("tiger")
     if fullobs:
@@ -298,10 +398,17 @@ def gen_case(rng, tier, force=None):
     if not force and not fullobs and rng.random() < .12:
         tiny_probabilities(rng, pc)
         variants.append("probability-2^-30")
+    elif not force and rng.random() < .12:
+        v = tiny_branch_huge_reward(rng, pc)
+        if v:
+            variants.append(v)
+    elif not force and gamma != NEAR1 and rng.random() < .2:
+        non_dyadic(rng, pc)
+        variants.append("non-dyadic-numbers")
     scaled = False
     if force:
         pc["reward"] = {key: str(F(v) * 64) for key, v in pc["reward"].items()}
-    elif rng.random() < .15:
+    elif rng.random() < .15 or "duplicate-action-relgap-2^-20" in variants:
         k = rng.choice([2**10, 2**20])
         pc["reward"] = {key: str(F(v) * k) for key, v in pc["reward"].items()}
         variants.append("rewards-x%d" % k)
@@ -312,9 +419,12 @@ def gen_case(rng, tier, force=None):
         cfg["eps"], cfg["horizon"] = "1/1000", None       # tight threshold on a large value scale
         if force:
             cfg["min_exp"], cfg["max_exp"] = 3, 2
+    if force and force.startswith("long-horizon"):
+        cfg = {"min_exp": 1, "max_exp": 1, "eps": "0", "horizon": 1200}
     if fullobs:
         cfg["min_exp"], cfg["max_exp"] = 3, rng.choice([2, 4])
-    if "probability-2^-30" in variants or "observation-near-twin-2^-30" in variants:
+    if "probability-2^-30" in variants or "observation-near-twin-2^-30" in variants or \
+            any(x.startswith("tiny-branch-huge-reward") for x in variants):
         cfg["horizon"] = rng.choice([1, 3])       # exact arithmetic gains 30 bits per sweep on these
     if gamma in ("0", NEAR1) or cfg["eps"] == "0":
         # horizon=None would need 0 sweeps (gamma=0: raises, reported separately) / ~1e7 sweeps / log(0)
@@ -339,6 +449,9 @@ def gen_case(rng, tier, force=None):
         i, j2 = rng.sample(range(pc["n"]), 2)
         beliefs.append([str(1 - TINY) if x == i else str(TINY) if x == j2 else "0" for x in range(pc["n"])])
         kinds.append("near-vertex-2^-30")
+    if "non-dyadic-numbers" in variants and pc["n"] in (2, 3, 4):
+        beliefs.append({2: ["1/10", "9/10"], 3: ["7/10", "1/5", "1/10"], 4: ["1/10", "1/5", "3/10", "2/5"]}[pc["n"]])
+        kinds.append("tenths")
     if rng.random() < .5:
         labels = {"states": "int", "actions": "int", "obs": "int"}
     else:
@@ -348,14 +461,19 @@ def gen_case(rng, tier, force=None):
     return {"pomdp": pc, "pbvi": cfg, "beliefs": beliefs, "belief_kinds": kinds,
             "qmdp_solvers": ["pi"] if gamma == NEAR1 else ["vi", "pi"], "fullobs": fullobs,
             "template": pc["obs_kinds"][0] if pc["obs_kinds"][0] in ("tiger", "identity") else "random",
-            "labels": labels, "reuse": rng.random() < .4, "touch_first": rng.random() < .3,
+            "labels": labels,
+            "reuse": rng.choice([None, None, None, "warm-twisted-first", "warm-twisted-first", "other-first", "stale", "stale"]),
+            "twin_first": rng.random() < .3, "unrelated": rng.randint(0, 2),
+            "shared_objects": rng.random() < .4, "int_types": rng.random() < .3,
+            "touch_first": rng.random() < .3,
             "initial_index": 0 if kinds and kinds[0] == "initial" else None, "variants": variants}
 
 
 def heavy(case):
     """cases whose exact arithmetic grows fast (2^-30 probabilities, gamma = 1 - 2^-20)"""
     v = case.get("variants", [])
-    return "probability-2^-30" in v or "observation-near-twin-2^-30" in v or case["pomdp"]["gamma"] == NEAR1
+    return "probability-2^-30" in v or "observation-near-twin-2^-30" in v or case["pomdp"]["gamma"] == NEAR1 or \
+        any(x.startswith("tiny-branch-huge-reward") for x in v)
 
 
 def depth_for(pc, case=None):
@@ -454,14 +572,16 @@ def run(ctx):
     else:
         cases = [degenerate_case(),
                  gen_case(ctx.rng, tier, force="large-values-tight-threshold:tiger"),
-                 gen_case(ctx.rng, tier, force="large-values-tight-threshold:fullobs-costs")] + \
-                [gen_case(ctx.rng, tier) for _ in range(ncases - 3)]
+                 gen_case(ctx.rng, tier, force="large-values-tight-threshold:fullobs-costs"),
+                 long_horizon_case(ctx.rng)] + \
+                [gen_case(ctx.rng, tier) for _ in range(ncases - 4)]
     shards = min(ctx.jobs, 8 if tier == "quick" else 16)
     impl = ctx.impl("c08_impl.py", {"cases": cases}, shards=shards)["results"]
 
     terms, meta = [], []
     info = {}
     variant_counts = {}
+    feats = {}
     counters = {"pbvi_runs": 0, "qmdp_runs": 0, "mirror_runs": 0, "mirror_skipped_budget": 0,
                 "fullobs_cases": 0, "fullobs_closed_sets": 0, "belief_checks": 0, "beliefset_point_checks": 0,
                 "horizon_none": 0, "absorbing_cases": 0, "neg_reward_cases": 0, "multi_call_runs": 0}
@@ -493,13 +613,25 @@ def run(ctx):
         counters["neg_reward_cases"] += int(any(F(r) < 0 for r in pc["reward"].values()))
         counters["fullobs_cases"] += int(case.get("fullobs", False))
         counters["horizon_none"] += int(case["pbvi"]["horizon"] is None)
-        for vname in case.get("variants", []) + (["planner-reused-after-x64-rewards"] if case.get("reuse") else []) + \
+        for vname in case.get("variants", []) + (["planner-reuse:" + str(case["reuse"])] if case.get("reuse") else []) + \
+                (["twin-and-%d-unrelated-problems-constructed-first" % case.get("unrelated", 0)] if case.get("twin_first") else []) + \
+                (["shared-mutable-caller-objects"] if case.get("shared_objects") else []) + \
+                (["int-typed-rewards-and-probabilities"] if case.get("int_types") else []) + \
+                (["n=nA"] if n == nA else []) + (["n=nO"] if n == nO else []) + \
                 (["base-object-views-touched-first"] if case.get("touch_first") else []) + \
                 (["non-int-labels"] if set((case.get("labels") or {}).values()) - {"int"} else []) + \
                 (["msdm-order-differs-from-id-order"] if list(order[0]) + list(order[1]) + list(order[2]) != list(range(n)) + list(range(nA)) + list(range(nO)) else []) + \
                 ["eps=" + case["pbvi"]["eps"]] * int(case["pbvi"]["eps"] in ("0", "1")):
             variant_counts[vname] = variant_counts.get(vname, 0) + 1
 
+        if res.get("mutated_inputs"):
+            ctx.violation("C08:caller-objects-mutated", {"case": case, "mutated": res["mutated_inputs"],
+                          "clause": "planning / querying modified the caller's own transition / reward / observation / action / initial-distribution objects"}, found=True)
+        feats["auxiliary_problem_planning_raised"] = feats.get("auxiliary_problem_planning_raised", 0) + len(res.get("reuse_errors", []))
+        for who_, qs_ in [("pbvi", res["pbvi"].get("queries", []))] + [("qmdp-" + k_, v_.get("queries", [])) for k_, v_ in res.get("qmdp", {}).items()]:
+            mb = [x for qq in qs_ for x in qq.get("mutated_beliefs", [])]
+            if mb:
+                ctx.violation("C08:%s:belief-object-mutated" % who_, {"case": case, "representations": sorted(set(mb))}, found=True)
         # ---------------- PBVI ----------------
         pb = res["pbvi"]
         if "error" in pb:
@@ -532,8 +664,16 @@ def run(ctx):
                 isvert = lambda b: sorted(fr(x) for x in b)[-1] == 1
                 pts = ([b for b in B if isvert(b)] + [b for b in B if not isvert(b)])[:8]   # vertices first
                 info[i]["pts"] = pts
-                terms.append("pb_rep %s %s %s %s %s %s %s %s %s %s" % (
-                    pt, q(tolp), q(ptol), nat(k), nat(j), vlib.b(j <= (5 if heavy(case) else 25)), qmat(G), qmat(Qs),
+                tub = "None"
+                if j > 200:
+                    Pm_, Rm_, af_, in_, Ob2_ = ordered_arrays(pc, order)
+                    mk2 = absorbing_mask(Pm_, Rm_, af_)
+                    M2 = max([F(0)] + [abs(sum(Pm_[s2][a][x] * Rm_[s2][a][x] for x in range(n)))
+                                       for s2 in range(n) if not mk2[s2] for a in range(nA)])
+                    exact_tail = g ** j * M2 / (1 - g)
+                    tub = "(Some %s)" % q(F(-((-exact_tail.numerator * 2**100) // exact_tail.denominator), 2**100))   # rounded UP
+                terms.append("pb_rep %s %s %s %s %s %s %s %s %s %s %s" % (
+                    pt, q(tolp), q(ptol), nat(k), nat(j), vlib.b(j <= (5 if heavy(case) else 25)), tub, qmat(G), qmat(Qs),
                     entries(beliefs, pb["queries"]), qmat(pts)))
                 meta.append(("pb", i))
                 ents = rep_entries(pb["queries"])
@@ -804,7 +944,7 @@ def run(ctx):
         "distinct_nontrivial": len(distinct),
         "rule": "POMDPs from harness/gen_pomdp.py (2..4 states, 1..3 actions, 1..3 observations; informative / uninformative / twin / deterministic observation kernels, 20% identity kernels = fully observable; absorbing states with and without exits; rewards of either sign; gamma in {1/2,3/4,9/10} plus boundary discounts 0 (int) and 1-2^-20; variants: duplicated action (exact tie / 2^-30 gap), 2^-30 probabilities, rewards x2^10 / x2^20, rewards on absorbing self-loops, a 1-state/1-action/1-observation case; state/action/observation labels int | str (with "") | tuple (with ()) | float (with 0.0) whose sorted order differs from id order; planner objects reused after a first plan_on on the same POMDP with rewards x64; cached matrices touched before planning) x PBVI(min_exp 0..3, max_exp 1..4, eps in {1e-1,1e-2,1e-3,1,0}, horizon in {None,1,3,10}) and QMDP(ValueIteration | PolicyIteration); test beliefs = initial + exactly reachable (1-2 steps) + vertices/faces/grid points, plus up to 6 points of the belief set PBVI actually used; distinct = structural hash of (POMDP, configuration); non-trivial = at least one non-absorbing state (all generated cases)",
         "samples": [{"case": cases[0], "impl": impl[0]}] if cases else [],
-        "variants": variant_counts,
+        "variants": variant_counts, "input_features": dict(variant_counts, **feats),
         "cases": len(cases), "mirror_accepts": mirror_ok, "mirror_ambiguous_near_tie": amb, "mirror_drift": drift,
         **counters,
     })
